@@ -143,6 +143,7 @@ type VerifC38State struct {
 	ViewChange                               int64
 	HasPrevMB                                bool
 	PrevMiners, PrevSharders                 []string
+	PrevMBNumber, PrevMBStart                int64
 	LastRound                                int64
 }
 
@@ -218,6 +219,7 @@ func VerifC38Read(balances cstate.StateContextI) (s VerifC38State, err error) {
 	if gn.PrevMagicBlock != nil {
 		s.HasPrevMB = true
 		s.PrevMiners, s.PrevSharders = verifPoolKeys(gn.PrevMagicBlock, true), verifPoolKeys(gn.PrevMagicBlock, false)
+		s.PrevMBNumber, s.PrevMBStart = gn.PrevMagicBlock.MagicBlockNumber, gn.PrevMagicBlock.StartingRound
 	}
 	return s, nil
 }
